@@ -372,15 +372,16 @@ def inline_l_tie(ctx: Ctx, drv: Driver, n: int, image: bool = False) -> None:
             md.normalizeLinkText = nt
             linkmod.normalizeReference = nr
             imgmod.normalizeReference = nr
+            whole = image and it % 4 == 3          # the wrapper token of parseInline as well (driver `parseinline`, model parseInlineM)
             try:
                 toks = md.parseInline(s, env)
-                e = "ok " + " ".join(enc_toks(toks[0].children or []))
+                e = "ok " + " ".join(enc_toks(toks) if whole else enc_toks(toks[0].children or []))
             except Exception as ex:
                 e = "e:" + type(ex).__name__
             ents = {m.group(1): lib_entities[m.group(1)] for m in name_re.finditer(s) if m.group(1) in lib_entities}
             rh = {k: v["href"] for k, v in env.get("references", {}).items()}
             rt = {k: v["title"] for k, v in env.get("references", {}).items() if v["title"]}
-            lines.append(f"{req} {mn} {rs or '-'} {1 if fj else 0} {1 if tj else 0} {1 if html_on else 0} {pairs(ents)} "
+            lines.append(f"{'parseinline' if whole else req} {mn} {rs or '-'} {1 if fj else 0} {1 if tj else 0} {1 if html_on else 0} {pairs(ents)} "
                          f"{pairs(seen_norm)} {pairs(seen_text)} {1 if has_refs else 0} {1 if store else 0} {pairs(rh)} {pairs(rt)} {pairs(seen_ref)} {enc(s)}")
             exp.append(e)
             meta.append((s, rs, mn, fj, tj, html_on, has_refs, store, sorted(refs)))
